@@ -45,15 +45,17 @@ TEXTS = {
                  'accepted pair. Axioms: none.'),
     },
     'C01': {
-        'level': ('Unbounded step theorems on the performer model (all subgraphs, tensors, consumer lists, '
-                  'parameters): one QUANTIZE/DEQUANTIZE insertion or in-place tensor quantization preserves '
-                  'well-formedness (indices in range, single producer, producers before readers, I/O in range) '
-                  'and places the op after the producer and before every rewired reader. The model (instruction '
-                  'generator + performer + transformations, as fixed) is tied to /repo by correspondence I/T/E on '
-                  'generated graphs x recipes (the returned bytes are re-parsed), the check_* predicates and dtype '
-                  'maps are regenerated from source; a direct WF oracle and the interpreter run on every returned model.'),
-        'note': ('Composition over whole instruction lists is not yet a theorem (validated by correspondence + '
-                 'oracle); interpreter behaviour is runtime. Axioms: none.'),
+        'level': ('Unbounded theorems on the pipeline model (all models, recipes, statistics, instruction lists): (1) one '
+                  'QUANTIZE/DEQUANTIZE insertion or in-place quantization preserves well-formedness of a subgraph (indices in '
+                  'range, single producer, producers before readers, I/O in range) and lands after the producer and before '
+                  'every rewired reader; (2) COMPOSITION: a global invariant of the performer - the two op-id maps resolve '
+                  'every pending instruction\'s producer reference to the real position of the op writing its tensor - is '
+                  'preserved by every step incl. map shifting and instruction retargeting; (3) every instruction the generator '
+                  'model emits is exact; hence (4) the whole pipeline model returns well-formed subgraphs or raises. Tied to '
+                  '/repo by correspondences I/T/E and E2 (whole pipeline model vs the bytes quantize() returns) and by '
+                  'regenerated predicates; a WF oracle and the interpreter run on every returned model.'),
+        'note': ('Opcode/buffer index ranges, unique names and signature ranges are checked by oracle + correspondence, not '
+                 'proved; interpreter behaviour is runtime (known finding F15). Axioms: none.'),
     },
     'C02': {
         'level': ('Unbounded step theorems: an insertion rewires exactly the listed consumers (and the graph '
